@@ -1,11 +1,9 @@
 use parry3d_f64::na::{Matrix3, UnitQuaternion};
-use std::f64::consts::PI;
 
 // These are the skew symmetric matrices
 const P_X: Matrix3<f64> = Matrix3::new(0.0, 0.0, 0.0, 0.0, 0.0, -1.0, 0.0, 1.0, 0.0);
 const P_Y: Matrix3<f64> = Matrix3::new(0.0, 0.0, 1.0, 0.0, 0.0, 0.0, -1.0, 0.0, 0.0);
 const P_Z: Matrix3<f64> = Matrix3::new(0.0, -1.0, 0.0, 1.0, 0.0, 0.0, 0.0, 0.0, 0.0);
-const EPSILON: f64 = 1e-8;
 
 #[derive(Clone)]
 pub struct Euler<T> {
@@ -63,23 +61,21 @@ fn to_matrix(q: &UnitQuaternion<f64>) -> Matrix3<f64> {
 fn to_wpr(m: &Matrix3<f64>) -> (f64, f64, f64) {
     // https://www.geometrictools.com/Documentation/EulerAngles.pdf
     let sin_y = m[(0, 2)];
+    let cos_y = m[(1, 2)].hypot(m[(2, 2)]);
+    let ry = sin_y.atan2(cos_y);
 
-    if sin_y > 1.0 - EPSILON {
-        let ry = PI / 2.0;
-        let rx = m[(1, 0)].atan2(m[(1, 1)]);
-        let rz = 0.0;
-        (rx, ry, rz)
-    } else if sin_y < EPSILON - 1.0 {
-        let ry = -PI / 2.0;
-        let rx = -(m[(1, 0)].atan2(m[(1, 1)]));
-        let rz = 0.0;
-        (rx, ry, rz)
+    // Close to gimbal lock rx and rz are individually ill-conditioned, but their sum (pitch up) or
+    // difference (pitch down) is not, and it is that combination which determines the rotation.
+    // rx is taken from the entries scaled by cos(ry) and rz from the well-conditioned combination,
+    // which at exact gimbal lock degenerates to rx = 0.
+    let rx = (-m[(1, 2)]).atan2(m[(2, 2)]);
+    let rz = if sin_y >= 0.0 {
+        (m[(1, 0)] + m[(2, 1)]).atan2(m[(1, 1)] - m[(2, 0)]) - rx
     } else {
-        let ry = sin_y.asin();
-        let rx = (-m[(1, 2)]).atan2(m[(2, 2)]);
-        let rz = (-m[(0, 1)]).atan2(m[(0, 0)]);
-        (rx, ry, rz)
-    }
+        rx - (m[(2, 1)] - m[(1, 0)]).atan2(m[(1, 1)] + m[(2, 0)])
+    };
+
+    (rx, ry, rz)
 }
 
 #[cfg(test)]
